@@ -238,6 +238,13 @@ func runC07(c *core.Ctx, o Options) {
 	// G2 premise: the approved-logon checks test against the limits the application configured — the settings the Logon handler
 	// installs before those checks keep HeartBtLimits (and the timeouts) of the settings they replace
 	s.checkSettingsPreserved("G2")
+	// G2 premise: an accepting session never rests in WaitingLogonAnswer (where the next Logon is accepted unchecked as the
+	// answer to its own), and the Logon is parsed into a builder of its own (fields absent from this Logon are absent, not
+	// left over from another session's)
+	s.checkRestingSide("G2")
+	if lf := s.one(true, "Logon"); lf != nil {
+		s.checkParseFirst("G2", "Logon", lf, s.tr.Traces(lf, s.m.AllStates))
+	}
 	// census: every send site in the package is covered by an analysed entry point
 	for _, f := range s.allFuncs() {
 		if s.isSendPrimitive(f) {
@@ -281,7 +288,7 @@ func runC07(c *core.Ctx, o Options) {
 	}
 	c.Extra["entry_points"] = len(roots)
 	c.Extra["paths"] = nTraces
-	c.RuleMin = map[string]int{"G1": 14, "G2": 5, "G3": 2, "census": 12}
+	c.RuleMin = map[string]int{"G1": 14, "G2": 8, "G3": 2, "census": 12}
 	c.MinObl = 20
 }
 
